@@ -603,7 +603,8 @@ func (r *replayer) run(v *interp.Violation, vecPath string) string {
 	case "fatal":
 		// oversized allocation / hang: confirmed if the process died of memory,
 		// timed out, or the harness itself measured it
-		if code == 124 || code == 137 || strings.Contains(s, "out of memory") || strings.Contains(s, "cannot allocate memory") || strings.Contains(s, "VERIF-ASSERT-FAILED") {
+		if code == 124 || code == 137 || strings.Contains(s, "out of memory") || strings.Contains(s, "cannot allocate memory") || strings.Contains(s, "VERIF-ASSERT-FAILED") ||
+			strings.Contains(s, "all goroutines are asleep - deadlock!") || strings.Contains(s, "fatal error: stack overflow") {
 			return "confirmed"
 		}
 	}
